@@ -9,7 +9,7 @@ from vlib.refs import flood
 
 PID = 'C16'
 RULE = ("exhaustive: every raster over {0,1} with <= 12 cells (quick) / <= 16 cells (thorough) and over {0,1,2} and {0,1,NaN} "
-        "with <= 9 (quick) / <= 10 cells, every HxW factorisation incl. 1xN, Nx1, both neighbourhoods; random: <= 14x14 with "
+        "with <= 9 (quick) / <= 10 cells, every HxW factorisation incl. 1xN, Nx1, both neighbourhoods; random: <= 20x20 with "
         "U/S/spiral/comb shapes, NaN cells, int32/int64/float32/float64, 2-4 values; oracle = BFS flood fill, label<->component "
         "bijection; non-trivial = distinct raster with a component that needs >= 1 provisional-label merge in a one-pass scan")
 BUDGET = {'quick': 90, 'thorough': 900}
@@ -46,7 +46,7 @@ def plan(tier, seed):
         for b in range(nblk):
             out.append(('exh3', '%d,%d,%d,%d' % (h, w, b, nblk)))
             out.append(('exh3n', '%d,%d,%d,%d' % (h, w, b, nblk)))
-    n = 200 if tier == 'quick' else 3000
+    n = 3000 if tier == 'quick' else 30000
     out += [('rand', i) for i in range(n)]
     return out
 
@@ -156,7 +156,7 @@ def check(rec, kind, idx, rng, tier):
                 _judge(rec, a, conn, out, {}, sample=(code == lo and b == 0 and h == 3 and conn == 4))
         return
     # random / structured
-    H, W = int(rng.integers(1, 15)), int(rng.integers(1, 15))
+    H, W = int(rng.integers(1, 21)), int(rng.integers(1, 21))
     if rng.random() < 0.15:
         H = 1
     elif rng.random() < 0.15:
